@@ -1255,7 +1255,7 @@ let delta = self . entries [ i ] - previous ;
 previous = self . entries [ i ] ;
 packer . pack_value ( delta , entry_bits ) ;
 proof {
-assert ( d . subrange ( i0 as int , i as int ) . push ( delta ) =~= d . subrange ( i0 as int , i + 1 ) ) ;
+assert ( d . subrange ( i0 as int , i as int ) . push ( d [ i as int ] ) =~= d . subrange ( i0 as int , i + 1 ) ) ;
 }
 i += 1 ;
 }
@@ -1305,17 +1305,16 @@ entries @ [ vx_i1 - 1 ] }
 let entry = entries [ vx_i1 ] ;
 proof {
 reveal ( sorted_strict ) ;
+let g_d = delta_at ( entries @ , vx_i1 as int ) ;
+assert ( g_d == entry - previous ) ;
+assert ( ored < 0x8000_0000_0000_0000u64 && g_d < 0x8000_0000_0000_0000u64 ==> ( ored | g_d ) < 0x8000_0000_0000_0000u64 && ( ored | g_d ) >= g_d ) by ( bit_vector ) ;
+assert ( g_d | ( ored | g_d ) == ( ored | g_d ) && ored | g_d == g_d | ored ) by ( bit_vector ) ;
+assert forall | j : int | 0 <= j < vx_i1 implies ( # [ trigger ] delta_at ( entries @ , j ) ) | ( ored | g_d ) == ( ored | g_d ) by {
+let x = delta_at ( entries @ , j ) ;
+assert ( x | ored == ored ==> x | ( ored | g_d ) == ( ored | g_d ) ) by ( bit_vector ) ;
+}
 }
 let delta = entry - previous ;
-proof {
-assert ( ored < 0x8000_0000_0000_0000u64 && delta < 0x8000_0000_0000_0000u64 ==> ( ored | delta ) < 0x8000_0000_0000_0000u64 && ( ored | delta ) >= delta ) by ( bit_vector ) ;
-assert ( delta == delta_at ( entries @ , vx_i1 as int ) ) ;
-assert ( delta | ( ored | delta ) == ( ored | delta ) ) by ( bit_vector ) ;
-assert forall | j : int | 0 <= j < vx_i1 implies ( # [ trigger ] delta_at ( entries @ , j ) ) | ( ored | delta ) == ( ored | delta ) by {
-let x = delta_at ( entries @ , j ) ;
-assert ( x | ored == ored ==> x | ( ored | delta ) == ( ored | delta ) ) by ( bit_vector ) ;
-}
-}
 ored |= delta ;
 previous = entry ;
 vx_i1 += 1 ;
